@@ -768,7 +768,7 @@ ensures
     if type_decl.sp_input_token() is Some { r is InputDeclaration } else { r is OutputDeclaration },          //@C06:statement-kind
     (final(context).scopes() == old(context).scopes()) <==> declared_symbol(r)->Some_0 is Err,                   //@C07:redeclaration-marked-in-the-graph''',
         ghost=[('context.new_binding(name_str.as_ref(), &typ, &type_decl.name().unwrap());', 'after', RM_('symbol_id', 'name_str@'))]))
-    zov['syntax_to_semantic'] = dict(ret='r', props=['C03', 'C06', 'C07', 'C11'], for_iter=['statements'], destruct=True, string_eq=['file_path'],
+    zov['syntax_to_semantic'] = dict(ret='r', props=['C03', 'C06', 'C07', 'C11', 'C12'], for_iter=['statements'], destruct=True, string_eq=['file_path'],
         spec='''requires
     context.wf(), context.global(),
     source::analyzable(parsed_source.sp_syntax_ast(), parsed_source.sp_included()) /* AP: established by oq3_source_file::parse_included_files */,
